@@ -150,3 +150,100 @@ Qed.
 
 Lemma linkage_free_D k : cov_D1s 0 k == 1 /\ cov_D2s 0 k == 1.
 Proof. split; [apply D1_r0 | apply D2_r0]. Qed.
+
+(** * covariance blocks are symmetric in the two traits (D symmetric within linkage groups) *)
+Lemma psum_swap chroms F : psum chroms F == psum chroms (fun i j => F j i).
+Proof. unfold psum. apply sumQ_ext_all. intros c. apply sumQ_swap. Qed.
+
+Definition D_symmetric (S : setup) : Prop :=
+  forall c i j, In c (s_chroms S) -> In i (ixs c) -> In j (ixs c) -> s_D1 S i j == s_D1 S j i /\ s_D2 S i j == s_D2 S j i.
+
+Lemma whole_qf_tsym S D t1 t2 ga gb :
+  (forall c i j, In c (s_chroms S) -> In i (ixs c) -> In j (ixs c) -> D i j == D j i) ->
+  whole S (qf S D t1 t2 ga gb) == whole S (qf S D t2 t1 ga gb).
+Proof.
+  intros H. rewrite !whole_qf. rewrite psum_swap. apply psum_ext. intros c i j Hc Hi Hj. rewrite (H c j i Hc Hj Hi). ring.
+Qed.
+
+Theorem trait_symmetric S t1 t2 g1 g2 g3 g4 : mem_ok (s_mem S) -> D_symmetric S ->
+  twoway_low S t1 t2 g1 g2 == twoway_low S t2 t1 g1 g2 /\
+  threeway_low S t1 t2 g1 g2 g3 == threeway_low S t2 t1 g1 g2 g3 /\
+  quad_low S t1 t2 g1 g2 g3 g4 == quad_low S t2 t1 g1 g2 g3 g4.
+Proof.
+  intros Hm HD.
+  assert (H1 : forall c i j, In c (s_chroms S) -> In i (ixs c) -> In j (ixs c) -> s_D1 S i j == s_D1 S j i) by (intros; now apply (HD c)).
+  assert (H2 : forall c i j, In c (s_chroms S) -> In i (ixs c) -> In j (ixs c) -> s_D2 S i j == s_D2 S j i) by (intros; now apply (HD c)).
+  split; [|split].
+  - rewrite !twoway_low_whole by exact Hm. now apply whole_qf_tsym.
+  - rewrite !threeway_low_whole by exact Hm. apply Qmult_comp; [reflexivity|]. unfold whole, three_block.
+    rewrite !sumQ_plus, !sumQ_scal, !sumQ_plus.
+    fold (whole S (qf S (s_D1 S) t1 t2 g2 g1)) (whole S (qf S (s_D1 S) t1 t2 g3 g1)) (whole S (qf S (s_D2 S) t1 t2 g2 g3))
+         (whole S (qf S (s_D1 S) t2 t1 g2 g1)) (whole S (qf S (s_D1 S) t2 t1 g3 g1)) (whole S (qf S (s_D2 S) t2 t1 g2 g3)).
+    rewrite (whole_qf_tsym S (s_D1 S) t1 t2 g2 g1 H1), (whole_qf_tsym S (s_D1 S) t1 t2 g3 g1 H1), (whole_qf_tsym S (s_D2 S) t1 t2 g2 g3 H2). reflexivity.
+  - rewrite !quad_low_whole by exact Hm. apply Qmult_comp; [reflexivity|]. unfold whole, quad_block.
+    rewrite !sumQ_plus.
+    fold (whole S (qf S (s_D2 S) t1 t2 g2 g1)) (whole S (qf S (s_D1 S) t1 t2 g3 g1)) (whole S (qf S (s_D1 S) t1 t2 g3 g2))
+         (whole S (qf S (s_D1 S) t1 t2 g4 g1)) (whole S (qf S (s_D1 S) t1 t2 g4 g2)) (whole S (qf S (s_D2 S) t1 t2 g4 g3))
+         (whole S (qf S (s_D2 S) t2 t1 g2 g1)) (whole S (qf S (s_D1 S) t2 t1 g3 g1)) (whole S (qf S (s_D1 S) t2 t1 g3 g2))
+         (whole S (qf S (s_D1 S) t2 t1 g4 g1)) (whole S (qf S (s_D1 S) t2 t1 g4 g2)) (whole S (qf S (s_D2 S) t2 t1 g4 g3)).
+    rewrite (whole_qf_tsym S (s_D2 S) t1 t2 g2 g1 H2), (whole_qf_tsym S (s_D1 S) t1 t2 g3 g1 H1), (whole_qf_tsym S (s_D1 S) t1 t2 g3 g2 H1),
+            (whole_qf_tsym S (s_D1 S) t1 t2 g4 g1 H1), (whole_qf_tsym S (s_D1 S) t1 t2 g4 g2 H1), (whole_qf_tsym S (s_D2 S) t1 t2 g4 g3 H2). reflexivity.
+Qed.
+
+(** * markers on the ln2/2 grid (what the correspondence uses for exact Haldane fractions): the model's r is the chain fraction of the gap vector *)
+Lemma qpow_add x a b : qpow x (a + b) == qpow x a * qpow x b.
+Proof. induction a as [|a IH]; cbn [Nat.add qpow]; [ring|]. rewrite IH. ring. Qed.
+
+(** gap recombination fractions of markers at integer multiples of ln2/2 Morgan (one linkage group, sorted) *)
+Fixpoint gaps_ln2 (pos : list Z) : list Q :=
+  match pos with
+  | x0 :: t => match t with x1 :: _ => (1 - qpow (1#2) (Z.to_nat (x1 - x0))) / 2 :: gaps_ln2 t | [] => [] end
+  | [] => []
+  end.
+Fixpoint nondecreasing (pos : list Z) : Prop :=
+  match pos with
+  | x0 :: t => match t with x1 :: _ => (x0 <= x1)%Z /\ nondecreasing t | [] => True end
+  | [] => True
+  end.
+
+Lemma nondecreasing_head pos x0 : nondecreasing (x0 :: pos) -> forall j, (j < length pos)%nat -> (x0 <= nth j pos 0%Z)%Z.
+Proof.
+  revert x0. induction pos as [|x1 pos IH]; intros x0 H j Hj; [cbn in Hj; lia|].
+  destruct H as [H01 H]. destruct j as [|j]; cbn [nth]; [exact H01|].
+  cbn [length] in Hj. specialize (IH x1 H j ltac:(lia)). lia.
+Qed.
+
+Lemma rho_ln2 : forall pos i j, nondecreasing pos -> (i < length pos)%nat -> (j < length pos)%nat ->
+  rho (gaps_ln2 pos) i j == qpow (1#2) (Z.to_nat (Z.abs (nth i pos 0%Z - nth j pos 0%Z))).
+Proof.
+  induction pos as [|x0 pos IH]; intros i j Hs Hi Hj; [cbn in Hi; lia|].
+  destruct pos as [|x1 pos].
+  - cbn [length] in Hi, Hj. assert (i = 0%nat) by lia. assert (j = 0%nat) by lia. subst. rewrite rho_diag. cbn [nth]. rewrite Z.sub_diag. reflexivity.
+  - assert (Hs' : nondecreasing (x1 :: pos)) by (destruct Hs; assumption).
+    assert (H01 : (x0 <= x1)%Z) by (destruct Hs; assumption).
+    change (gaps_ln2 (x0 :: x1 :: pos)) with ((1 - qpow (1#2) (Z.to_nat (x1 - x0))) / 2 :: gaps_ln2 (x1 :: pos)).
+    assert (G : forall k, (k < length (x1 :: pos))%nat ->
+                (1 - 2 * ((1 - qpow (1#2) (Z.to_nat (x1 - x0))) / 2)) * rho (gaps_ln2 (x1 :: pos)) 0 k
+                == qpow (1#2) (Z.to_nat (Z.abs (x0 - nth k (x1 :: pos) 0%Z)))).
+    { intros k Hk. rewrite (IH 0%nat k Hs') by (cbn [length] in *; lia). change (nth 0 (x1 :: pos) 0%Z) with x1.
+      pose proof (nondecreasing_head (x1 :: pos) x0 Hs k Hk) as B0.
+      pose proof (nondecreasing_head pos x1 Hs') as B1.
+      assert (x1 <= nth k (x1 :: pos) 0%Z)%Z.
+      { destruct k as [|k]; cbn [nth]; [lia|]. apply B1. cbn [length] in Hk. lia. }
+      replace (Z.to_nat (Z.abs (x0 - nth k (x1 :: pos) 0%Z))) with (Z.to_nat (x1 - x0) + Z.to_nat (Z.abs (x1 - nth k (x1 :: pos) 0%Z)))%nat by lia.
+      rewrite qpow_add. field. }
+    destruct i as [|i], j as [|j].
+    + rewrite rho_diag. cbn [nth]. rewrite Z.sub_diag. reflexivity.
+    + rewrite rho_0S. change (nth 0 (x0 :: x1 :: pos) 0%Z) with x0. change (nth (S j) (x0 :: x1 :: pos) 0%Z) with (nth j (x1 :: pos) 0%Z).
+      apply G. cbn [length] in *. lia.
+    + rewrite rho_sym, rho_0S. change (nth 0 (x0 :: x1 :: pos) 0%Z) with x0. change (nth (S i) (x0 :: x1 :: pos) 0%Z) with (nth i (x1 :: pos) 0%Z).
+      rewrite G by (cbn [length] in *; lia).
+      replace (Z.abs (nth i (x1 :: pos) 0%Z - x0)) with (Z.abs (x0 - nth i (x1 :: pos) 0%Z)) by lia. reflexivity.
+    + rewrite rho_SS. change (nth (S i) (x0 :: x1 :: pos) 0%Z) with (nth i (x1 :: pos) 0%Z). change (nth (S j) (x0 :: x1 :: pos) 0%Z) with (nth j (x1 :: pos) 0%Z).
+      apply IH; [exact Hs'| |]; cbn [length] in *; lia.
+Qed.
+
+(** the model's recombination fractions on the ln2/2 grid are the chain fractions [rpair] of the gap vector *)
+Theorem r_ln2_is_chain pos i j : nondecreasing pos -> (i < length pos)%nat -> (j < length pos)%nat ->
+  r_ln2 pos i j == rpair (gaps_ln2 pos) i j.
+Proof. intros Hs Hi Hj. unfold r_ln2, rpair. now rewrite rho_ln2. Qed.
